@@ -141,9 +141,9 @@ def lockTable : List C13Gen.LockUse := [
   ⟨"core/state_indexed.go", "IndexedState.uncacheRule", "s.cacheMutex.Lock()", false⟩,
   ⟨"core/state_indexed.go", "IndexedState.uncacheRules", "s.cacheMutex.Lock()", false⟩,
   ⟨"core/state_linear.go", "LinearState.Add", "s.slock(false)", true⟩,
-  ⟨"core/state_linear.go", "LinearState.Clear", "s.slock(false)", false⟩,
+  ⟨"core/state_linear.go", "LinearState.Clear", "s.slock(false)", true⟩,
   ⟨"core/state_linear.go", "LinearState.Count", "s.slock(true)", false⟩,
-  ⟨"core/state_linear.go", "LinearState.Delete", "s.slock(false)", false⟩,
+  ⟨"core/state_linear.go", "LinearState.Delete", "s.slock(false)", true⟩,
   ⟨"core/state_linear.go", "LinearState.IsLoaded", "s.slock(false)", false⟩,
   ⟨"core/state_linear.go", "LinearState.Load", "s.slock(false)", true⟩,
   ⟨"core/state_linear.go", "LinearState.cacheGeneration", "s.cacheMutex.Lock()", false⟩,
